@@ -810,6 +810,12 @@ int liberasurecode_reconstruct_fragment(int desc,
     k = instance->args.uargs.k;
     m = instance->args.uargs.m;
 
+    if (destination_idx < 0 || destination_idx >= (k + m)) {
+        log_error("Can not reconstruct fragment, destination index out of range");
+        ret = -EINVALIDPARAMS;
+        goto out;
+    }
+
     for (i = 0; i < num_fragments; i++) {
         /* Verify metadata checksum */
         if (is_invalid_fragment_header(
